@@ -48,6 +48,7 @@ fn crowded_recs(rng: &mut Rng, lang: &str, n: usize, corpus: &[Rec], distinct: b
     let k = rng.range(3, 10);
     let pool: Vec<&str> = (0..k).map(|_| *rng.pick(&v)).collect();
     let mut ratings: Vec<usize> = (0..n).map(|i| if distinct { i * 5 + 1 + rng.below(5) } else { rng.below(3) }).collect();
+    gen::scale_ratings(rng, &mut ratings);
     rng.shuffle(&mut ratings);
     (0..n)
         .map(|i| {
@@ -85,6 +86,7 @@ fn similar_recs(rng: &mut Rng, lang: &str, n: usize) -> (Vec<Rec>, Vec<String>) 
         }
     }
     let mut ratings: Vec<usize> = (0..n).map(|i| i * 5 + 1 + rng.below(5)).collect();
+    gen::scale_ratings(rng, &mut ratings);
     rng.shuffle(&mut ratings);
     let recs = (0..n)
         .map(|i| {
@@ -272,6 +274,7 @@ impl Ranking {
         let pool = ["metal", "mettle", "medal", "mailbox", "meter", "melon", "memo", "mesh"];
         let alpha = gen::lower_alphabet(lang);
         let mut ratings: Vec<usize> = (0..n).map(|i| i * 3 + 1 + cx.rng.below(3)).collect();
+        gen::scale_ratings(&mut cx.rng, &mut ratings);
         cx.rng.shuffle(&mut ratings);
         let share = cx.rng.chance(2, 3); // every record matches the query
         let recs: Vec<Rec> = (0..n)
@@ -386,7 +389,15 @@ impl Ranking {
         } else {
             (cv("abcdefgh"), cv("ijklmnop"), cv("qrstuvwz"))
         };
-        let u = gen::rand_word(&mut cx.rng, &a1, 5, 9);
+        let mut u = gen::rand_word(&mut cx.rng, &a1, 5, 9);
+        if cx.rng.chance(1, 4) {
+            // an inflected-looking u: random stem + an ending the language's stemmer strips
+            let suf = *cx.rng.pick(&gen::suffixes(lang));
+            if suf.chars().all(|c| !a2.contains(&c) && !a3.contains(&c)) {
+                u = format!("{}{}", gen::rand_word(&mut cx.rng, &a1, 3, 5), suf);
+                cx.count("u with an inflectional ending");
+            }
+        }
         let v = gen::rand_word(&mut cx.rng, &a2, 5, 9);
         let x = gen::rand_word(&mut cx.rng, &a3, 3, 8);
         let is_plain = |w: &str| with_lang(lang, |l| {
@@ -396,7 +407,7 @@ impl Ranking {
         if is_plain(&u) && is_plain(&v) && is_plain(&x) {
             let mut pairs: Vec<(&'static str, String, String, String)> = vec![]; // (rule, query, better, worse)
             let uc = cv(&u);
-            let pos = cx.rng.below(uc.len());
+            let pos = if cx.rng.chance(1, 3) { uc.len() - 1 - cx.rng.below(2) } else { cx.rng.below(uc.len()) };
             let mut ut = uc.clone();
             match cx.rng.below(4) {
                 0 => {
@@ -419,7 +430,10 @@ impl Ranking {
                 }
             }
             let ut = s(&ut);
-            if ut != u {
+            // "the same word with a typo" must still be a different word after normalisation
+            // (e.g. swapping 'é' and 'e' in a French word is no typo at all)
+            let norm = |w: &str| with_lang(lang, |l| gen::tok_record(l, w).chars);
+            if ut != u && norm(&ut) != norm(&u) {
                 pairs.push(("exact>typo", u.clone(), u.clone(), ut.clone()));
                 pairs.push(("exact>typo (with filler)", u.clone(), format!("{} {}", u, x), format!("{} {}", ut, x)));
             }
@@ -435,7 +449,13 @@ impl Ranking {
             for (rule, q, better, worse) in pairs {
                 for order in 0..2 {
                     for rmode in 0..2 {
-                        let (rb, rw) = if rmode == 0 { (cx.rng.below(1000), cx.rng.below(1usize << 31)) } else { (cx.rng.below(1usize << 31), cx.rng.below(1000)) };
+                        let special = [0usize, 1, 255, 256, 65535, 65536, (1 << 24) - 1, 1 << 24, 1 << 30, (1usize << 31) - 1];
+                        let (rb, rw) = match (rmode, cx.rng.below(4)) {
+                            (0, 0) => (0, *cx.rng.pick(&special)),
+                            (1, 0) => (*cx.rng.pick(&special), 0),
+                            (0, _) => (cx.rng.below(1000), cx.rng.below(1usize << 31)),
+                            _ => (cx.rng.below(1usize << 31), cx.rng.below(1000)),
+                        };
                         self.rule_case(cx, lang, rule, &q, &better, &worse, rb, rw, order);
                     }
                 }
@@ -520,14 +540,19 @@ impl Ranking {
 
     fn empty(&self, cx: &mut Cx, lang: &'static str) {
         let words = ["metal", "mailbox", "b", "a", "aa", "ab", "Zed", "für", "élan", "Ёж", "éclair", "e\u{301}clair", "zz", "straße", "strasse"];
-        let n = if cx.rng.chance(1, 6) { cx.rng.range(13, 60) } else { cx.rng.below(13) };
+        let n = match cx.rng.below(60) {
+            0 => cx.rng.range(200, 600),
+            1..=10 => cx.rng.range(13, 60),
+            _ => cx.rng.below(13),
+        };
+        let rating_scale = *cx.rng.pick(&[1usize, 1, 1, 65536, 1 << 24, ((1usize << 31) - 1) / 2000]);
         if n > 12 {
             cx.count("stores of 13-60 records");
         }
         let distinct = cx.rng.chance(1, 3);
         let mk = |rng: &mut Rng, i: usize| -> Rec {
             let t = format!("{}{}{}", rng.pick(&words), if rng.chance(1, 2) { " " } else { "" }, if rng.chance(1, 2) { *rng.pick(&words) } else { "" });
-            (i, t, if distinct { i * 3 + rng.below(3) } else { rng.below(3) })
+            (i, t, (if distinct { i * 3 + rng.below(3) } else { rng.below(3) }) * rating_scale)
         };
         let mut recs: Vec<Rec> = (0..n).map(|i| mk(&mut cx.rng, i)).collect();
         cx.rng.shuffle(&mut recs);
@@ -563,8 +588,10 @@ impl Ranking {
             if ids.iter().any(|id| *id >= n) {
                 errs.push("unknown id".into());
             } else {
-                let rating = |id: usize| recs.iter().find(|r| r.0 == id).unwrap().2;
-                let key = |id: usize| st.tok_record(&recs.iter().find(|r| r.0 == id).unwrap().1).chars;
+                let keys: std::collections::BTreeMap<usize, Vec<char>> = recs.iter().map(|r| (r.0, st.tok_record(&r.1).chars)).collect();
+                let ratings_by_id: std::collections::BTreeMap<usize, usize> = recs.iter().map(|r| (r.0, r.2)).collect();
+                let rating = |id: usize| ratings_by_id[&id];
+                let key = |id: usize| &keys[&id];
                 for w in got.windows(2) {
                     if rating(w[0].0) < rating(w[1].0) {
                         errs.push(format!("rating increases from id {} to id {}", w[0].0, w[1].0));
